@@ -278,6 +278,10 @@ func expArgs(precs []uint32) []Operand {
 		add(23 * pf)
 		add(23*pf + 1)
 	}
+	for _, v := range []int64{130, 150, 200, 300, 500, 1000, 2000} {
+		// between 23*Precision and the overflow/underflow thresholds of mid-sized exponent ranges
+		out = append(out, Fin(v, 0, false), Fin(v, 0, true))
+	}
 	for _, v := range []int64{22999, 23000, 23001, 50000, 230258, 230259, 1000000} {
 		out = append(out, Fin(v, 0, false), Fin(v, 0, true))
 	}
@@ -291,7 +295,9 @@ func c12Run(e *core.Env) {
 	if e.Thorough() {
 		corePrecs = []uint32{16, 34, 60}
 	}
-	ranges := [][2]int32{{-6143, 6144}, {-100000, 100000}, {-3, 9}, {0, 9}}
+	// {-1000, 50} and {-128, 96}: asymmetric ranges in which e^x for a negative x is representable although
+	// |x| lies beyond what MaxExponent alone would allow
+	ranges := [][2]int32{{-6143, 6144}, {-100000, 100000}, {-3, 9}, {0, 9}, {-1000, 50}, {-128, 96}}
 	if e.Thorough() {
 		ranges = append(ranges, [2]int32{-1, 5}, [2]int32{-20, 20})
 	}
@@ -538,9 +544,9 @@ func init() {
 		Rule:  "every (function, operands, precision, exponent range, mode) point of the product is executed and compared with a high-precision real reference (big.Float, own ln 2 / ln 10 by atanh series, explicit relative error bound; precision doubled until the one-ulp question is decided, otherwise counted as undecided and never reported); exact-by-definition cases exactly; overflow/underflow reports only if the exact value lies outside the range; non-trivial = operand inside the function's domain",
 		Bounds: func(tier string) string {
 			if tier == "thorough" {
-				return "Exp/Ln/Log10 on DENSE(3,4) + SHAPE(12) x p = 1..9 (each operand under a rotating (exponent range, mode) pair out of 6 ranges incl. [0,9], [-1,5], [-3,9] x 6 modes, every pair reached), Ln/Log10 arguments 10^k(1+-10^-j) j<=14 |k|<=6, tight ranges [0,9] and [-1,5] at p in {1,2} x {half_even, floor} on every c*10^e, c<1000, e in {-2,0}; Exp arguments {10^-j, 22.9p, 23p, 23p+1, 22999..23001, 230258, 230259} at p in 1..9,16,34,60; constant tables: p = 2^i, 2^i+-1 up to 2200 through Ln and Log10; Pow on selected DENSE(3,3) x {integers -12..12, 20 fractions} x p in {1,2,3,5,9}"
+				return "Exp/Ln/Log10 on DENSE(3,4) + SHAPE(12) x p = 1..9 (each operand under a rotating (exponent range, mode) pair out of 8 ranges incl. [0,9], [-1,5], [-3,9], [-1000,50], [-128,96] x 6 modes, every pair reached), Ln/Log10 arguments 10^k(1+-10^-j) j<=14 |k|<=6, tight ranges [0,9] and [-1,5] at p in {1,2} x {half_even, floor} on every c*10^e, c<1000, e in {-2,0}; Exp arguments {10^-j, 22.9p, 23p, 23p+1, +-130..2000, 22999..23001, 230258, 230259} at p in 1..9,16,34,60; constant tables: p = 2^i, 2^i+-1 up to 2200 through Ln and Log10; Pow on selected DENSE(3,3) x {integers -12..12, 20 fractions} x p in {1,2,3,5,9}"
 			}
-			return "Exp/Ln/Log10 on selected DENSE(3,4) + SHAPE(8) x p = 1..9 (each operand under a rotating (exponent range, mode) pair out of 4 ranges incl. [0,9], [-3,9] x 6 modes, every pair reached), Ln/Log10 arguments 10^k(1+-10^-j) j<=8 |k|<=3, Exp argument family at p in 1..9,16,34; tight ranges [0,9] and [-1,5] at p in {1,2} x {half_even, floor} on every c*10^e, c<1000, e in {-2,0}; constant tables up to p = 257; Pow on ~60 bases x 45 exponents x alternating p in {1,2,3,5,9}"
+			return "Exp/Ln/Log10 on selected DENSE(3,4) + SHAPE(8) x p = 1..9 (each operand under a rotating (exponent range, mode) pair out of 6 ranges incl. [0,9], [-3,9], [-1000,50], [-128,96] x 6 modes, every pair reached), Ln/Log10 arguments 10^k(1+-10^-j) j<=8 |k|<=3, Exp argument family (10^-j, 22.9p, 23p, 23p+1, +-130..2000, 22999..10^6) at p in 1..9,16,34; tight ranges [0,9] and [-1,5] at p in {1,2} x {half_even, floor} on every c*10^e, c<1000, e in {-2,0}; constant tables up to p = 257; Pow on ~60 bases x 45 exponents x alternating p in {1,2,3,5,9}"
 		},
 		Run:    c12Run,
 		Replay: c12Replay,
